@@ -13,6 +13,7 @@ here: it only transports what happened to TLC.
 from __future__ import annotations
 
 import math
+import signal
 
 import numpy as np
 from numpy import array
@@ -33,8 +34,18 @@ class Boom(ValueError):
     """The exception raised by the 'raising' user functions (a ValueError: a DOE skips the sample)."""
 
 
+class Runaway(BaseException):
+    """Raised from the observation points when one execution has produced far more events than any
+    budget of the plan allows: the run is aborted and reported (it would not stop by itself)."""
+
+
+MAX_EVENTS = 4000
+MAX_SECONDS = 30.0
+
+
 class Rec:
     def __init__(self):
+        self.start = 0
         self.events = []
         self.pids = {}
         self.coords = []
@@ -70,6 +81,8 @@ class Rec:
 
     # -- snapshots
     def snap(self):
+        if len(self.events) - self.start > MAX_EVENTS:
+            raise Runaway
         p = self.problem
         return {"cur": int(p.evaluation_counter.current), "len": len(p.database)}
 
@@ -202,7 +215,7 @@ def classify(message):
     return "Normal"
 
 
-def execute(rec: Rec, lib, kind: str, settings: dict, *, grad: bool, nx: int = 3, kkt=False, samples_of=None):
+def execute(rec: Rec, lib, kind: str, settings: dict, *, grad: bool, nx: int = 3, kkt=False, composite=False):
     """Run lib.execute(problem, **settings) and append the exec / ... / end events."""
     problem = rec.problem
     db = problem.database
@@ -211,14 +224,25 @@ def execute(rec: Rec, lib, kind: str, settings: dict, *, grad: bool, nx: int = 3
                 useDb=bool(settings.get("use_database", True)), storeJac=bool(settings.get("store_jacobian", True)),
                 stopIfNan=bool(problem.stop_if_nan) if kind == "opt" else False,
                 maxTime=bool(settings.get("max_time", 0)), kkt=bool(kkt), nx=int(nx), samples=[],
+                composite=bool(composite),
                 **rec.snap())
     rec.events.append(head)
+    start = rec.start = len(rec.events)
     rec.pending = []
     res, exc = None, None
+
+    def on_alarm(signum, frame):
+        raise Runaway
+
+    old = signal.signal(signal.SIGALRM, on_alarm)
+    signal.setitimer(signal.ITIMER_REAL, MAX_SECONDS)
     try:
         res = lib.execute(problem, **settings)
     except BaseException as ex:  # noqa: BLE001
         exc = ex
+    finally:
+        signal.setitimer(signal.ITIMER_REAL, 0)
+        signal.signal(signal.SIGALRM, old)
     if kind == "doe":
         smp = getattr(lib, "samples", None)
         if smp is not None and len(np.shape(smp)) == 2:
@@ -241,7 +265,11 @@ def execute(rec: Rec, lib, kind: str, settings: dict, *, grad: bool, nx: int = 3
     if has and getattr(res, "x_opt", None) is not None and np.size(res.x_opt):
         xopt = rec.pid_near(res.x_opt)
     cause = classify(getattr(res, "message", None)) if has else "Normal"
-    user_raise = isinstance(exc, Boom)
+    if isinstance(exc, Runaway):
+        del rec.events[start + 60:]          # keep the beginning only
+        cause = "Runaway"
+    # the exception that escaped is that of a user function (libraries may re-wrap it)
+    user_raise = exc is not None and any(e["ev"] == "orig" and e["out"] == "raise" for e in rec.events[start:])
     rec.events.append(dict(ev="end", cause=cause, result=bool(has), xopt=int(xopt), crashed=exc is not None,
                            userRaise=bool(user_raise), exc=type(exc).__name__ if exc is not None else "",
                            nni=len(ni) + (0 if ours_ni else 1), nsl=len(st) + (0 if ours_st else 1),
